@@ -226,6 +226,61 @@ Definition gb_show (reg : registry) (g : genbank) : out (list byte) :=
       (if 0 <? olen then [79;82;73;71;73;78;32;32;32;32;32;32] ++ nl ++ gb_origin g else []) ++
       [47; 47] ++ nl).
 
+(* ---------------------------------------------------------------- GenBankFields.Slice *)
+
+(* parseReferenceInfo(prefix): "(bases A to B; C to D)" as 0-based ranges *)
+Definition ref_range : M (Z * Z) :=
+  pMap (pSeq3 pInt (pBytes [32;116;111;32]) pInt)
+       (fun '(a, _, b) => if b <=? a - 1 then Err EOther else Ok (a - 1, b)).
+
+Definition ref_info_parser (prefix : list byte) : M (list (Z * Z)) :=
+  pMap (pSeq4 (pBytes ([40] ++ prefix ++ [32])) ref_range
+              (pMany (pMap (pSeq2 (pBytes [59; 32]) ref_range) (fun x => Ok (snd x))))
+              (pByte 41))
+       (fun '(_, h, t, _) => Ok (h :: t)).
+
+(* Molecule.Counter *)
+Definition counter (mol : list byte) : list byte :=
+  if bytes_eqb mol [65;65] then [114;101;115;105;100;117;101;115] else [98;97;115;101;115].
+
+Definition with_info (r : reference) (info : list byte) : reference :=
+  mkref (r_number r) info (r_authors r) (r_group r) (r_title r) (r_journal r) (r_pubmed r) (r_comment r).
+Definition with_number (r : reference) (n : Z) : reference :=
+  mkref n (r_info r) (r_authors r) (r_group r) (r_title r) (r_journal r) (r_pubmed r) (r_comment r).
+
+(* the ranges of one reference that overlap the window, clipped and re-based *)
+Definition clip_ranges (start end_ : Z) (locs : list (Z * Z)) : list (Z * Z) :=
+  map (fun '(s, e) => (go_Max 0 (s - start), go_Min (end_ - start) (e - start)))
+      (filter (fun '(s, e) => negb (start =? end_) && go_rangeOverlap s e start end_) locs).
+
+Definition show_ranges (prefix : list byte) (rs : list (Z * Z)) : list byte :=
+  [40] ++ prefix ++ [32] ++
+  sep_by [59; 32] (map (fun '(h, t) => itoa (h + 1) ++ [32;116;111;32] ++ itoa t) rs) ++ [41].
+
+(* None: dropped; the reference with unparsable info is kept as it is *)
+Definition ref_slice_one (prefix : list byte) (start end_ : Z) (r : reference) : out (option reference) :=
+  match run (ref_info_parser prefix) (r_info r) with
+  | Ok locs =>
+    match clip_ranges start end_ locs with
+    | [] => Ok None
+    | rs => Ok (Some (with_info r (show_ranges prefix rs)))
+    end
+  | Err _ => Ok (Some r)
+  | Panic => Panic
+  | OutOfFuel => OutOfFuel
+  end.
+
+Fixpoint renumber (n : Z) (rs : list reference) : list reference :=
+  match rs with [] => [] | r :: t => with_number r n :: renumber (n + 1) t end.
+
+Fixpoint keep_some {A} (l : list (option A)) : list A :=
+  match l with [] => [] | Some a :: t => a :: keep_some t | None :: t => keep_some t end.
+
+(* the References of GenBankFields.Slice(start, end) *)
+Definition refs_slice (mol : list byte) (start end_ : Z) (refs : list reference) : out (list reference) :=
+  rs <- omapM (ref_slice_one (counter mol) start end_) refs ;;
+  Ok (renumber 1 (keep_some rs)).
+
 (* ---------------------------------------------------------------- reader *)
 
 Definition not_space (c : byte) : bool := negb (is_space c).
